@@ -36,7 +36,7 @@ const OP_SIGMA2R: u8 = OpCode::CASESigma2Resume as u8;
 const OP_STATUS: u8 = OpCode::StatusReport as u8;
 
 #[derive(Debug, Clone, Serialize, Deserialize)]
-struct FabricSpec {
+pub struct FabricSpec {
     icac: bool,
     /// the controller is a member of this fabric too
     on_ctrl: bool,
@@ -45,7 +45,7 @@ struct FabricSpec {
 }
 
 #[derive(Debug, Clone, Serialize, Deserialize)]
-struct C01Case {
+pub struct C01Case {
     fabrics: Vec<FabricSpec>,
     /// which of the controller's fabrics is addressed (selector)
     target: u16,
@@ -66,7 +66,7 @@ fn cat() -> impl Strategy<Value = u32> {
     })
 }
 
-fn case_strategy() -> impl Strategy<Value = C01Case> {
+pub fn case_strategy() -> impl Strategy<Value = C01Case> {
     let fabric = (
         any::<bool>(),
         prop::bool::weighted(0.6),
@@ -188,6 +188,14 @@ fn do_handshake<'a, C: rs_matter::crypto::Crypto>(
 }
 
 fn check(case: &C01Case) -> Case {
+    check_with(case, None)
+}
+
+/// Run the scenario; with `post` the given oracle decides instead of the C01 one (used by C15).
+pub fn check_with(
+    case: &C01Case,
+    post: Option<&dyn Fn(&Net, &rs_matter::Matter<'static>, &rs_matter::Matter<'static>) -> Case>,
+) -> Case {
     vh::sim::reset_universe();
     let net = Net::new(2);
     let cd = mk_crypto(case.seed);
@@ -338,6 +346,9 @@ fn check(case: &C01Case) -> Case {
     }
     if stop == Stop::PollLimit {
         return Case::inconclusive("poll watchdog");
+    }
+    if let Some(post) = post {
+        return post(&net, &device, &ctrl);
     }
 
     // ---------------------------------------------------------------- oracle
